@@ -61,15 +61,19 @@ class FakeOS:
 
     def __init__(self, gw):
         self.gw = gw
-        self._next_fd = 100
+        self._open = set()
 
     def open(self, path, flags):
         ok = self.gw.present and (not self.gw.glob_mode or path.endswith("hidraw%d" % self.gw.node))
         self.gw.open_attempts.append((self.gw.sim.loop.time(), ok))
         if not ok:
             raise OSError(errno.ENOENT, "no such device")
-        self._next_fd += 1
-        self.gw.fd = self._next_fd
+        # like the kernel: the lowest free descriptor number (numbers are reused after close)
+        fd = 100
+        while fd in self._open:
+            fd += 1
+        self._open.add(fd)
+        self.gw.fd = fd
         self.gw.opens += 1
         self.gw.on_open()
         return self.gw.fd
@@ -77,6 +81,8 @@ class FakeOS:
     def close(self, fd):
         if self.gw.fd == fd:
             self.gw.fd = None
+        self._open.discard(fd)
+        self.gw.sim.loop.fd_closed(fd)
         self.gw.closes += 1
 
     def read(self, fd, n):
